@@ -361,71 +361,71 @@ Proof.
   - (* zero width: every range is empty *)
     assert (x = []) by (destruct x; [reflexivity | discriminate]). subst x. cbn [length].
     destruct f, d; rewrite ?Nat.min_0_r; reflexivity.
-  - set (w := length x) in *.
+  - idtac.
     destruct f.
     + (* zero fill *)
-      assert (Ha : min n w <= w) by lia.
-      destruct d; cbn [right_shift_ranges left_shift_ranges].
-      * rewrite (left_shape x (min n w) _ B0 Ha (const_piece_zero x _)). apply bv_build_ext. intros i Hi.
+      assert (Ha : min n (length x) <= (length x)) by lia.
+      destruct d; unfold right_shift_ranges, left_shift_ranges; cbv beta iota.
+      * etransitivity; [exact (left_shape x (min n (length x)) _ B0 Ha (const_piece_zero x _)) |]. apply bv_build_ext. intros i Hi.
         unfold shift_spec_bit. cbn [shift_fillbit].
-        destruct (Nat.ltb_spec i (min n w)); destruct (N.ltb_spec (N.of_nat i) (N.of_nat n)); try lia; [reflexivity|].
+        destruct (Nat.ltb_spec i (min n (length x))); destruct (N.ltb_spec (N.of_nat i) (N.of_nat n)); try lia; [reflexivity|].
         f_equal. lia.
-      * rewrite (right_shape x (min n w) _ B0 Ha (const_piece_zero x _)). apply bv_build_ext. intros i Hi.
-        unfold shift_spec_bit. cbn [shift_fillbit]. fold w.
-        destruct (Nat.ltb_spec i (w - min n w)); destruct (N.ltb_spec (N.of_nat i + N.of_nat n) (N.of_nat w)); try lia; [|reflexivity].
+      * etransitivity; [exact (right_shape x (min n (length x)) _ B0 Ha (const_piece_zero x _)) |]. apply bv_build_ext. intros i Hi.
+        unfold shift_spec_bit. cbn [shift_fillbit]. idtac.
+        destruct (Nat.ltb_spec i ((length x) - min n (length x))); destruct (N.ltb_spec (N.of_nat i + N.of_nat n) (N.of_nat (length x))); try lia; [|reflexivity].
         f_equal. lia.
     + (* one fill *)
-      assert (Ha : min n w <= w) by lia.
-      destruct d; cbn [right_shift_ranges left_shift_ranges].
-      * rewrite (left_shape x (min n w) _ B1 Ha (const_piece_one x _)). apply bv_build_ext. intros i Hi.
+      assert (Ha : min n (length x) <= (length x)) by lia.
+      destruct d; unfold right_shift_ranges, left_shift_ranges; cbv beta iota.
+      * etransitivity; [exact (left_shape x (min n (length x)) _ B1 Ha (const_piece_one x _)) |]. apply bv_build_ext. intros i Hi.
         unfold shift_spec_bit. cbn [shift_fillbit].
-        destruct (Nat.ltb_spec i (min n w)); destruct (N.ltb_spec (N.of_nat i) (N.of_nat n)); try lia; [reflexivity|].
+        destruct (Nat.ltb_spec i (min n (length x))); destruct (N.ltb_spec (N.of_nat i) (N.of_nat n)); try lia; [reflexivity|].
         f_equal. lia.
-      * rewrite (right_shape x (min n w) _ B1 Ha (const_piece_one x _)). apply bv_build_ext. intros i Hi.
-        unfold shift_spec_bit. cbn [shift_fillbit]. fold w.
-        destruct (Nat.ltb_spec i (w - min n w)); destruct (N.ltb_spec (N.of_nat i + N.of_nat n) (N.of_nat w)); try lia; [|reflexivity].
+      * etransitivity; [exact (right_shape x (min n (length x)) _ B1 Ha (const_piece_one x _)) |]. apply bv_build_ext. intros i Hi.
+        unfold shift_spec_bit. cbn [shift_fillbit]. idtac.
+        destruct (Nat.ltb_spec i ((length x) - min n (length x))); destruct (N.ltb_spec (N.of_nat i + N.of_nat n) (N.of_nat (length x))); try lia; [|reflexivity].
         f_equal. lia.
     + (* last: replicate the first / last bit *)
-      assert (Ha : min n w <= w) by lia.
-      replace (w =? 0) with false by (symmetry; apply Nat.eqb_neq; exact W0).
-      destruct d; cbn [right_shift_ranges left_shift_ranges].
-      * rewrite (left_shape x (min n w) _ (bv_get x 0) Ha (concat_repeat_bit x 0 _)). apply bv_build_ext. intros i Hi.
-        unfold shift_spec_bit. cbn [shift_fillbit]. fold w.
-        replace (w =? 0) with false by (symmetry; apply Nat.eqb_neq; exact W0).
-        destruct (Nat.ltb_spec i (min n w)); destruct (N.ltb_spec (N.of_nat i) (N.of_nat n)); try lia; [reflexivity|].
+      assert (Ha : min n (length x) <= (length x)) by lia.
+      replace ((length x) =? 0) with false by (symmetry; apply Nat.eqb_neq; exact W0).
+      destruct d; unfold right_shift_ranges, left_shift_ranges; cbv beta iota.
+      * etransitivity; [exact (left_shape x (min n (length x)) _ (bv_get x 0) Ha (concat_repeat_bit x 0 _)) |]. apply bv_build_ext. intros i Hi.
+        unfold shift_spec_bit. cbn [shift_fillbit]. idtac.
+        replace ((length x) =? 0) with false by (symmetry; apply Nat.eqb_neq; exact W0).
+        destruct (Nat.ltb_spec i (min n (length x))); destruct (N.ltb_spec (N.of_nat i) (N.of_nat n)); try lia; [reflexivity|].
         f_equal. lia.
-      * rewrite (right_shape x (min n w) _ (bv_get x (w - 1)) Ha (concat_repeat_bit x (w - 1) _)). apply bv_build_ext. intros i Hi.
-        unfold shift_spec_bit. cbn [shift_fillbit]. fold w.
-        replace (w =? 0) with false by (symmetry; apply Nat.eqb_neq; exact W0).
-        destruct (Nat.ltb_spec i (w - min n w)); destruct (N.ltb_spec (N.of_nat i + N.of_nat n) (N.of_nat w)); try lia; [|reflexivity].
+      * etransitivity; [exact (right_shape x (min n (length x)) _ (bv_get x ((length x) - 1)) Ha (concat_repeat_bit x ((length x) - 1) _)) |]. apply bv_build_ext. intros i Hi.
+        unfold shift_spec_bit. cbn [shift_fillbit]. idtac.
+        replace ((length x) =? 0) with false by (symmetry; apply Nat.eqb_neq; exact W0).
+        destruct (Nat.ltb_spec i ((length x) - min n (length x))); destruct (N.ltb_spec (N.of_nat i + N.of_nat n) (N.of_nat (length x))); try lia; [|reflexivity].
         f_equal. lia.
-    + (* rotate by n mod w *)
-      replace (w =? 0) with false by (symmetry; apply Nat.eqb_neq; exact W0).
-      assert (Hr : n mod w < w) by (apply Nat.mod_upper_bound; exact W0).
-      assert (Er : N.to_nat (N.of_nat n mod N.of_nat w) = n mod w).
+    + (* rotate by n mod (length x) *)
+      replace ((length x) =? 0) with false by (symmetry; apply Nat.eqb_neq; exact W0).
+      assert (Hr : n mod (length x) < (length x)) by (apply Nat.mod_upper_bound; exact W0).
+      assert (Er : N.to_nat (N.of_nat n mod N.of_nat (length x)) = n mod (length x)).
       { rewrite <- Nat2N.inj_mod by exact W0. apply Nat2N.id. }
-      set (r := n mod w) in *.
-      destruct d; cbn [right_shift_ranges left_shift_ranges].
-      * replace (r <? w) with true by (symmetry; apply Nat.ltb_lt; exact Hr).
+      set (r := n mod (length x)) in *.
+      destruct d; unfold right_shift_ranges, left_shift_ranges; cbv beta iota.
+      * replace (r <? (length x)) with true by (symmetry; apply Nat.ltb_lt; exact Hr).
         cbn [app map concat]. rewrite !piece_input, app_nil_r. apply bv_ext.
         -- rewrite app_length, !bv_slice_length, bv_build_length. lia.
         -- intros i Hi. rewrite app_length, !bv_slice_length in Hi.
            rewrite bv_get_app, bv_slice_length, !bv_get_slice, bv_get_build.
-           replace (i <? w) with true by (symmetry; apply Nat.ltb_lt; lia).
-           unfold shift_spec_bit. fold w. rewrite Er. fold r.
+           replace (i <? (length x)) with true by (symmetry; apply Nat.ltb_lt; lia).
+           unfold shift_spec_bit. idtac. rewrite Er. fold r.
            rewrite rot_left_index by lia.
            destruct (Nat.ltb_spec i r).
            ++ f_equal.
-           ++ replace (i - r <? w - r) with true by (symmetry; apply Nat.ltb_lt; lia). reflexivity.
-      * replace (r <? w) with true by (symmetry; apply Nat.ltb_lt; exact Hr).
+           ++ replace (i - r <? (length x) - r) with true by (symmetry; apply Nat.ltb_lt; lia). reflexivity.
+      * replace (r <? (length x)) with true by (symmetry; apply Nat.ltb_lt; exact Hr).
         cbn [app map concat]. rewrite !piece_input, app_nil_r. apply bv_ext.
         -- rewrite app_length, !bv_slice_length, bv_build_length. lia.
         -- intros i Hi. rewrite app_length, !bv_slice_length in Hi.
            rewrite bv_get_app, bv_slice_length, !bv_get_slice, bv_get_build.
-           replace (i <? w) with true by (symmetry; apply Nat.ltb_lt; lia).
-           unfold shift_spec_bit. fold w. rewrite Er. fold r.
+           replace (i <? (length x)) with true by (symmetry; apply Nat.ltb_lt; lia).
+           unfold shift_spec_bit. idtac. rewrite Er. fold r.
            rewrite rot_right_index by lia.
-           destruct (Nat.ltb_spec i (w - r)).
+           destruct (Nat.ltb_spec i ((length x) - r)).
            ++ f_equal. lia.
-           ++ replace (i - (w - r) <? r) with true by (symmetry; apply Nat.ltb_lt; lia). reflexivity.
+           ++ replace (i - ((length x) - r) <? r) with true by (symmetry; apply Nat.ltb_lt; lia). reflexivity.
 Qed.
